@@ -319,3 +319,21 @@ METAS.append(('tuples', {'r': ({'b': 1, 'a': 2},),
                          't': (1, (2, {'z': 0, 'y': [(), ({'q': 1, 'p': 2},)]})),
                          'e': ()}))
 META_BY_NAME.update(dict(METAS[-2:]))
+
+# values that have several textual spellings of the same meaning (a library
+# that "normalises" rewrites them): timestamps, numbers and booleans as
+# strings, paths, hashes, URLs, e-mail addresses -- under the key names the
+# specification documents
+METAS.append(('spellings', {
+    'date': '2021-06-01T19:26:31Z',
+    'author date': '2021-06-01 19:26:31-0700',
+    'committer date': '2021-06-01t19:26:31.5+00:00',
+    'time': '20210601T192631Z', 'day': '2021-06-01', 'epoch': 1622575591,
+    'version': '1.0', 'n': '007', 'f': '1e3', 'h': '0x1F', 'b': 'True',
+    'yes': 'yes', 'none': 'null', 'float': 1.0, 'exp': 1e+22, 'neg0': -0.0,
+    'path': './a//b/../c/', 'win': 'C:\\dir\\f.txt', 'tilde': '~/x',
+    'id': 'ABCDEF0123abcdef', 'url': 'HTTP://Example.COM/%7Euser?q=a+b',
+    'author': 'A.B@Example.COM', 'ws': ' padded ', 'tab': 'a\tb',
+    'nl': 'line\r\n', 'uni': 'e\u0301 \u212b', 'empty': '',
+    'revision': {'old': '00000000', 'new': '0'}}))
+META_BY_NAME['spellings'] = METAS[-1][1]
